@@ -6,6 +6,7 @@ almost never intended in this code base; the few instances on the reviewed tree 
   engine-in-loop      a random engine constructed (seeded) inside a loop: every iteration restarts the same sequence
   use-after-move      a parameter / local read in a later statement of the block in which it was handed to std::move / std::forward
   unsigned-bound      `x - c` over an unsigned x as a loop bound without a guard that x >= c (wraps to a huge bound at x < c)
+  twin-initialiser    two locals of one block initialised by the same parameterless getter on the same object
   parallel-copy       the statements of one block that copy an element of several parallel arrays into position d read different
                       source positions
 Each lint carries a positive control that must be recognised on every run."""
@@ -167,6 +168,25 @@ def parallel_copy_nodes(fn):
     return out
 
 
+def twin_initialiser_nodes(fn):
+    """two locals of one block initialised by the same parameterless const getter on the same object (count_a = a.size(); count_b =
+    a.size();): the second was meant to read the other object"""
+    out = []
+    for b in _blocks(fn.get("body"), []):
+        seen = {}
+        for s in stmts_of(b):
+            if s.get("k") != "Decl" or len(s.get("vars", [])) != 1 or s["vars"][0].get("init") is None:
+                continue
+            v = s["vars"][0]
+            i = strip_all(v["init"])
+            if i.get("k") == "Call" and i.get("obj") is not None and not i.get("args") and i.get("cconst", True) and strip_all(i["obj"]).get("k") == "Ref":
+                t = txt(i)
+                if t in seen:
+                    out.append((seen[t], v, t))
+                seen[t] = v
+    return out
+
+
 def hazards(facts, fams=None):
     fns = functions_by(facts)
     exc = _exc()
@@ -189,6 +209,8 @@ def hazards(facts, fams=None):
             found.append(("use-after-move", "%s:%s" % (base, m.get("n")), s2.get("loc"), "`%s` is read after it was handed to std::move / std::forward in an earlier statement of the same block: for an rvalue argument the value is gone" % m.get("n")))
         for n, x in unsigned_bound_nodes(fn):
             found.append(("unsigned-bound", base, n.get("loc"), "loop bound `%s` subtracts from an unsigned value with no guard that it is large enough: at 0 the bound wraps to a huge number and the loop runs off the data" % txt(n["c"])))
+        for v1, v2, t in twin_initialiser_nodes(fn):
+            found.append(("twin-initialiser", "%s:%s" % (base, v2.get("n")), v2.get("loc"), "`%s` and `%s` are both initialised with `%s`: one of two sibling values is read from the wrong object (sizes, counts or thetas of the two operands get mixed up)" % (v1.get("n"), v2.get("n"), t)))
         for di, items in parallel_copy_nodes(fn):
             found.append(("parallel-copy", base, items[0][0].get("loc"), "the element copied into position `%s` is read from different source positions (%s) in the statements of one block: parallel arrays (items / weights / marks) get out of step" % (di, ", ".join(sorted(set(x[1] for x in items))))))
         cnt = {}
@@ -201,7 +223,7 @@ def hazards(facts, fams=None):
                 out.append(ob("lint.hazard", k, loc or fn["pat"], "info", "reviewed instance: %s" % exc[k], fn["qname"]))
             else:
                 out.append(ob("lint.hazard", k, loc or fn["pat"], "violated", detail, fn["qname"]))
-    out.append(ob("lint.hazard", "all:functions-scanned", "", "discharged", "%d functions scanned for 6 hazard patterns" % scanned, ""))
+    out.append(ob("lint.hazard", "all:functions-scanned", "", "discharged", "%d functions scanned for 7 hazard patterns" % scanned, ""))
     # positive controls
     ctl_fn = {"body": {"k": "Block", "s": [
         {"k": "Expr", "e": {"k": "Call", "cname": "f", "callee": "datasketches::f", "args": [{"k": "Cast", "impl": True, "ck": "IntegralCast", "from": "unsigned long", "t": "unsigned int", "e": {"k": "Ref", "n": "seed", "d": 1, "dk": "param", "t": "unsigned long"}}]}},
